@@ -155,7 +155,7 @@ PROPS["C04"] = {
     "trusted_base": READER_TB,
     "assumptions": COMMON_ASSUME + ["caller buffers are non-empty", "callbacks read only from the reader they are given",
                                     "no earlier error on the same reader (DESIGN §7 N2)"],
-    "level_text": 'Kernel-checked: message_delivered - for every data message (any number of fragments, empty ones included, control frames interleaved anywhere, masked or not), every chunking of the transport (empty chunks, data together with io.EOF) and every sequence of positive caller buffer sizes, what Reader.Read hands out is a prefix of the concatenation of the unmasked fragment payloads; no error but the final io.EOF is possible; io.EOF is reached within (bytes + chunks + 1) Reads; then the whole message has been delivered, the transport stands exactly behind its last frame and the reader is reset like a new one. Built on C01 (chunk-independent header decoding), C02 (cipher = XOR at any offset) and a one-Read step invariant (Proofs/Reader.lean). With an OnIntermediate handler (Props/C04Cb.message_delivered_collect, the handler wsutil.ReadMessage installs): the same delivery, and when io.EOF is reached the handler has been called exactly once per interleaved control frame, in stream order, with that frame\'s opcode and exact unmasked payload (step_cb / reads_cb in Proofs/ReaderCb thread the handler\'s log through the stream invariant). With CheckUTF8 on: C07.text_message. PARTIAL in scope: reader without receive extension, transport not delivering its last bytes together with a failure; Discard: message_skipped / message_skipped_any - NextFrame then Discard from anywhere inside a message consumes exactly the rest of it (fragments and interleaved controls) for any chunking, CheckUTF8 on or off, no error, transport at the next message. The helper loops themselves: readAll_message (ioutil.ReadAll over the reader, with and without the collecting handler), readMessage_single / readMessage_fragmented (wsutil.ReadMessage on unfragmented and on fragmented non-text messages, CheckUTF8 on as in the helper: controls first, then the one message; text: C07.readMessage_single_text). fragmented text: C07.readMessage_fragmented_text). The ReadData family (the replies written by ControlFrameHandler) is decided by the stream oracle + exact correspondence (~5k quick / ~100k thorough cases).',
+    "level_text": 'Kernel-checked: message_delivered - for every data message (any number of fragments, empty ones included, control frames interleaved anywhere, masked or not), every chunking of the transport (empty chunks, data together with io.EOF) and every sequence of positive caller buffer sizes, what Reader.Read hands out is a prefix of the concatenation of the unmasked fragment payloads; no error but the final io.EOF is possible; io.EOF is reached within (bytes + chunks + 1) Reads; then the whole message has been delivered, the transport stands exactly behind its last frame and the reader is reset like a new one. Built on C01 (chunk-independent header decoding), C02 (cipher = XOR at any offset) and a one-Read step invariant (Proofs/Reader.lean). With an OnIntermediate handler (Props/C04Cb.message_delivered_collect, the handler wsutil.ReadMessage installs): the same delivery, and when io.EOF is reached the handler has been called exactly once per interleaved control frame, in stream order, with that frame\'s opcode and exact unmasked payload (step_cb / reads_cb in Proofs/ReaderCb thread the handler\'s log through the stream invariant). With CheckUTF8 on: C07.text_message. PARTIAL in scope: reader without receive extension, transport not delivering its last bytes together with a failure; Discard: message_skipped / message_skipped_any - NextFrame then Discard from anywhere inside a message consumes exactly the rest of it (fragments and interleaved controls) for any chunking, CheckUTF8 on or off, no error, transport at the next message. The helper loops themselves: readAll_message (ioutil.ReadAll over the reader, with and without the collecting handler), readMessage_single / readMessage_fragmented (wsutil.ReadMessage on unfragmented and on fragmented non-text messages, CheckUTF8 on as in the helper: controls first, then the one message; text: C07.readMessage_single_text). fragmented text: C07.readMessage_fragmented_text). The ReadData family (ReadClientData, ReadServerText, ...): readData_single(_text), and over HISTORIES on one connection readData_after_history / readData_text_after_history (Props/C04ReadDataSkip, C08ReadData) - behind any number of pings and unwanted unfragmented messages in any order, exactly one pong per ping (identical payload, in order) has been written, nothing else, and the first wanted message is returned as if it had come first (text iff well-formed); C05ReadData / C16ReadData: an offending frame or a cut payload behind such a history. A FRAGMENTED wanted message through ReadData (pongs written by the OnIntermediate ControlFrameHandler between fragments) is decided by the stream oracle + exact correspondence (~5k quick / ~100k thorough cases), not by a theorem.',
     "level_note": 'Trusted: Lean kernel, Spec/Stream.lean (oracle), Model/Reader.lean as a hand model tied by correspondence, harness.',
 }
 
@@ -169,7 +169,7 @@ PROPS["C05"] = {
     "exhaustive_families": ["prefix shape x offending-frame alphabet x side (bounded-exhaustive)"],
     "trusted_base": READER_TB,
     "assumptions": COMMON_ASSUME + ["what a caller does with the reader after it returned an error is outside the property"],
-    "level_text": 'Kernel-checked: reject_at_first_bad - a message whose frames are valid up to some point followed by an offending frame (a framing rule broken in the state built up so far, or a length over MaxFrameSize): for every transport chunking and caller buffer schedule the Reads deliver exactly the data of the valid frames with no error, and the Read that reaches the offending frame returns the protocol error / ErrFrameTooLarge with zero bytes, the transport standing right behind the offending header (no payload byte read); first_frame_rejected for a message start; the reported rule is really broken (C03); rsv_refused_without_negotiation - an attached extension does not lift the RSV rule while State lacks StateExtended. discard_rejects_later_bad - Discard from anywhere inside a message whose later frame breaks a rule returns that protocol error instead of skipping past it. Same scope restrictions as C04 (no extension, CheckUTF8 off, OnIntermediate unset); control frames over the limit, SkipHeaderCheck and the read helpers are decided by the oracle + correspondence.',
+    "level_text": 'Kernel-checked: reject_at_first_bad - a message whose frames are valid up to some point followed by an offending frame (a framing rule broken in the state built up so far, or a length over MaxFrameSize): for every transport chunking and caller buffer schedule the Reads deliver exactly the data of the valid frames with no error, and the Read that reaches the offending frame returns the protocol error / ErrFrameTooLarge with zero bytes, the transport standing right behind the offending header (no payload byte read); first_frame_rejected for a message start; the reported rule is really broken (C03); rsv_refused_without_negotiation - an attached extension does not lift the RSV rule while State lacks StateExtended. discard_rejects_later_bad - Discard from anywhere inside a message whose later frame breaks a rule returns that protocol error instead of skipping past it. readData_refuses_bad_frame - the ReadData family behind any history of pings and unwanted messages returns the protocol error of the first offending frame, no data, transport right behind that header. Same scope restrictions as C04 for the stream theorems (no extension, CheckUTF8 off, OnIntermediate unset); control frames over the limit, SkipHeaderCheck and ReadMessage on offending frames are decided by the oracle + correspondence.',
     "level_note": "Trusted: Lean kernel, Spec/Stream.lean, harness and oracle.",
 }
 
@@ -183,7 +183,7 @@ PROPS["C16"] = {
     "trusted_base": READER_TB + ["Driver/C06.lean oracle: after a destination error no byte is sent and every write/flush reports it"],
     "assumptions": COMMON_ASSUME + ["a frame header cut after its first two bytes is io.EOF outside a fragmented message (an error, not success; DESIGN §7 N9)",
                                     "ReadFrom after a sticky error is outside 'write and flush' (N7)"],
-    "level_text": "Kernel-checked: cut_payload_never_succeeds - inside a frame of which the transport holds fewer bytes than announced, every sequence of Reads hands out only a genuine unmasked prefix and ends in io.ErrUnexpectedEOF or the transport's failure (never io.EOF), within (bytes + chunks + 1) Reads; stream_ends_between_fragments - after any valid prefix of an open message a clean transport end is io.ErrUnexpectedEOF; discard_cut / discard_open_tail - Discard of a cut frame, or of a message whose stream ends between two frames after any number of complete fragments and controls, reports io.ErrUnexpectedEOF (or the transport failure), never nil; once the writer's error is set Write, WriteThrough, Flush and FlushFragment return it and leave the destination untouched; a failing flush sets it. The unchanged tree violated the property (F9, F10) - found by the oracle, repaired by fix commit 4fb3446. PARTIAL: handshake cuts, control-handler hand-over of cut payloads and ws.ReadFrame are enumerated at every cut offset (oracle), not theorems.",
+    "level_text": "Kernel-checked: cut_payload_never_succeeds - inside a frame of which the transport holds fewer bytes than announced, every sequence of Reads hands out only a genuine unmasked prefix and ends in io.ErrUnexpectedEOF or the transport's failure (never io.EOF), within (bytes + chunks + 1) Reads; stream_ends_between_fragments - after any valid prefix of an open message a clean transport end is io.ErrUnexpectedEOF; discard_cut / discard_open_tail - Discard of a cut frame, or of a message whose stream ends between two frames after any number of complete fragments and controls, reports io.ErrUnexpectedEOF (or the transport failure), never nil; once the writer's error is set Write, WriteThrough, Flush and FlushFragment return it and leave the destination untouched; a failing flush sets it. The unchanged tree violated the property (F9, F10) - found by the oracle, repaired by fix commit 4fb3446. readData_cut_never_succeeds - the ReadData family never returns a message whose payload was cut short (behind any history of pings and unwanted messages): io.ErrUnexpectedEOF or the transport failure. PARTIAL: handshake cuts, control-handler hand-over of cut payloads and ws.ReadFrame are enumerated at every cut offset (oracle), not theorems.",
     "level_note": "Trusted: Lean kernel, harness, oracle. Handshake part pending the HTTP model.",
 }
 
@@ -209,7 +209,8 @@ PROPS["C08"] = {
                   "close frames get the empty / echoed-code / 1002 reply and the right error value; every reply header passes the peer's "
                   "CheckHeader and the 1002 payload passes the peer's CheckCloseFrameData. The unchanged tree violated the property (F1: "
                   "client-side protocol-error reply unmasked and garbled; F2: ControlWriter never counted) — found by the oracle, repaired "
-                  "by fix commits cf8539c and 3950338.",
+                  "by fix commits cf8539c and 3950338. In the helper loop (Props/C08ReadData.loop_ping / loop_history): wsutil.ReadData answers every "
+                  "ping it meets before the wanted message with exactly that pong - one per ping, in order, nothing else written.",
     "level_note": "Trusted: Lean kernel, the reply oracle, harness; source-unmasking variant (server-side ControlHandler with a masked Src) is "
                   "covered by correspondence only.",
 }
@@ -233,8 +234,13 @@ PROPS["C13"] = {
                   "first frame of a data message marked compressed and nothing on continuations / control opcodes; extRsv IS "
                   "MessageState.SetBits on a fresh header, and SetBits / UnsetBits ARE the translated Go source (bridge); UnsetBits updates "
                   "the state only on first data frames, clears RSV1 and leaves RSV2/3, is transparent for control and continuation frames "
-                  "and rejects RSV1 there; the reader's NextFrame surfaces that rejection without disturbing the state. PARTIAL: 'in every "
-                  "emitted message' over whole histories rests on C06's history invariant (in progress); stack round trip by oracle.",
+                  "and rejects RSV1 there; the reader's NextFrame surfaces that rejection without disturbing the state. Over HISTORIES (Props/C13History): "
+                  "sent_rsv1_first_frame_only - after ANY sequence of Write / WriteThrough / FlushFragment / Flush every message sent, complete "
+                  "or still open, carries extRsv on frame 0 (RSV1 iff a compressed data message) and RSV 0 on every other frame, however it was "
+                  "fragmented (a corollary of C06.history_ok); recv_history / recv_history_refused - over ANY sequence of headers the state is "
+                  "the RSV1 of the most recent message start, continuation and control frames do not disturb it, headers are handed on with "
+                  "RSV1 cleared exactly on message starts and the other bits untouched, and the first misplaced RSV1 ends the run with the "
+                  "protocol error. PARTIAL: the compressed round trip through both stacks is decided by the oracle (compress/flate is not modelled).",
     "level_note": "Trusted: Lean kernel, wsfacts translator, harness; compress/flate not modelled.",
 }
 
